@@ -14,7 +14,7 @@ import (
 var poolTiny = []string{"a", "b", "ab", "ba", "c"}
 
 var poolSyntax = []string{"- x", "a-b", "* y", "#h", " x", "x ", "  ", "+", "-", "*", "a\tb", "\tx", "a\rb", "- ", "x - y", "+ z",
-	"a  b", "-x", "# h", "a#", "   lead3", "trail3   ", "\t", "-- a", "* * *", "1. a", "> q", "[x](y)", "`c`"}
+	"a  b", "-x", "# h", "a#", "   lead3", "trail3   ", "\t", "-- a", "* * *", "1. a", "> q", "[x](y)", "`c`", "100%", "%s %d", "%[1]q"}
 
 var poolUnicode = []string{"日本語", "é", "é", "‮RTL", "a\u0085b", "a b", "\ufeffb", "😀", "ß", "Ω≈ç√", " ", "a　b",
 	"ｆｕｌｌ", "́", "​", "한글", "🇯🇵"}
@@ -22,7 +22,7 @@ var poolUnicode = []string{"日本語", "é", "é", "‮RTL", "a\u0085b", "a 
 var poolInvalidUTF8 = []string{"\xff", "a\xc3", "\xed\xa0\x80", "\xc0\xaf", "ok\xfe\xffok", "\xf8\x88\x80\x80\x80"}
 
 var poolPathy = []string{"a.go", "Makefile", ".hidden", "a..b", "...", "x y", "ü", "b.md", "README.md", "c.tar.gz", "dir", "o", "go",
-	"main.go", "src", "a", "b", "lib.a", ".go", "x.gz", "d.md", "e", "f", "..a", "a.", strings.Repeat("n", 255), "日本", "file.o", "Makefile.in", "md"}
+	"main.go", "src", "a", "b", "lib.a", ".go", "x.gz", "d.md", "e", "f", "..a", "a.", strings.Repeat("n", 255), "日本", "file.o", "Makefile.in", "md", "100%", "%s", "%d.go", "a%vb", "%!s(MISSING)", "$HOME", "`id`", "a;b", "a&b", "a|b", "a*b", "a?b", "[a]", "{a,b}", "a\\b", "~", "-rf", "--help"}
 
 var poolHostilePath = []string{"..", ".", "a/b", "/abs", "../x", "a/../../x", "../../escaped", "/", "a/", "/etc/passwd", "..\x00", "a\x00b",
 	strings.Repeat("L", 256), "\xff\xfe", "./x", "x/.", "../..", "a//b", "~", "..."}
